@@ -520,6 +520,7 @@ pub fn generate(profile: &str, variant: &str, seed: u64, index: u64) -> SimScena
         // ------------------------------------------------------------------------------ C01
         "C01" | "C13" | "C10" => {
             opts.n_targets = 1 + rng.below(2) as usize;
+            opts.n_bystanders = rng.below(3) as usize;
             opts.hood_class = Some(*rng.pick(&[0, 0, 0, 0, 2, 2, 3, 3]));
             if rng.chance(1, 3) {
                 opts.offset_class = Some(*rng.pick(&[2, 3, 3]));
